@@ -1,6 +1,6 @@
 PROP = dict(
     id="C07",
-    engines=["c07"],
+    engines=["c07", "c07b"],
     go_tags=["c07"],
     gen_files={"MM/Gen/C07.lean": "c07"},
     extract_files={"MM/Gen/C07Ast.lean": {"cmd": ["go", "run", "{VERIF}/tools/c07_extract.go"]}},
